@@ -3,6 +3,7 @@ package main
 // P07-chunks, P12-fill, P13-entrytypes, P09-notation: small table/shape rules added for depth.
 
 import (
+	"os"
 	"fmt"
 	"go/token"
 	"go/types"
@@ -412,7 +413,7 @@ func ruleP09Notation(p *Prog, r *Report) {
 	of := p.method("klog", "openRange", "ToString")
 	if r.anchorFn(rule, of, "openRange.ToString") {
 		ok := false
-		eachInstr(of, func(in ssa.Instruction) {
+		eachVInstr(of, func(in ssa.Instruction) {
 			if c, isC := in.(ssa.CallInstruction); isC && staticCallee(c) != nil && staticCallee(c).String() == "strings.Repeat" {
 				s, _ := constString(c.Common().Args[0])
 				pl := polyOf(c.Common().Args[1])
@@ -808,7 +809,7 @@ func ruleP01Delims(p *Prog, r *Report) {
 			switch x := in.(type) {
 			case *ssa.MakeClosure:
 				if fn, ok := x.Fn.(*ssa.Function); ok {
-					items = append(items, item{pos: x.Pos(), sub: fn})
+					items = append(items, item{pos: fn.Pos(), sub: fn}) // (the literal's own position)
 				}
 			case ssa.CallInstruction:
 				if sameFn(staticCallee(x), peek) {
@@ -823,6 +824,11 @@ func ruleP01Delims(p *Prog, r *Report) {
 			}
 		})
 		sort.SliceStable(items, func(i, j int) bool { return items[i].pos < items[j].pos })
+		if os.Getenv("KLOGSA_DEBUG") != "" {
+			for _, it := range items {
+				fmt.Fprintf(os.Stderr, "DELIMS %s item pos=%s site=%v sub=%v\n", fnName(f), p.pos(it.pos), it.st != nil, it.sub)
+			}
+		}
 		for _, it := range items {
 			if it.st != nil {
 				sites = append(sites, *it.st)
